@@ -156,7 +156,7 @@ func lifecycleOracle(prop string, res *RunResult) []Violation {
 		if e := ir.Get("hang"); e != nil {
 			d = e.Err
 		}
-		return []Violation{{Sig: prop + ":hang:" + ir.HangKind() + ":" + hangWaiters(d), Msg: trimTo(d, 4000)}}
+		return []Violation{{Sig: prop + ":hang:" + ir.HangKind() + ":" + hangWaiters(d) + allSlotsStalled(res.Plan), Msg: trimTo(d, 4000)}}
 	default:
 		return []Violation{{Sig: prop + ":node-" + ab + ":" + ir.PanicSite(), Msg: trimTo(ir.Stderr, 2500)}}
 	}
@@ -304,7 +304,7 @@ func lifecycleOracle(prop string, res *RunResult) []Violation {
 		}
 		if ca, ok := cancelAt[q.qid]; ok && ca >= q.inv && ca <= q.ret {
 			if q.ret-maxI64(ca, faultsEnd) > 15_000 {
-				vs = append(vs, Violation{Sig: prop + ":cancel-not-prompt", Msg: fmt.Sprintf("%s %q: cancelled at %d, returned at %d", q.id, q.text, ca, q.ret)})
+				vs = append(vs, Violation{Sig: prop + ":cancel-not-prompt" + allSlotsStalled(res.Plan), Msg: fmt.Sprintf("%s %q: cancelled at %d, returned at %d", q.id, q.text, ca, q.ret)})
 			}
 		}
 	}
@@ -337,8 +337,9 @@ func lifecycleOracle(prop string, res *RunResult) []Violation {
 				vs = append(vs, Violation{Sig: prop + ":goroutines-left-after-quiescence" + stalledWS(res.Plan) + ":" + strings.Join(sites, ","), Msg: strings.Join(leaked, "; ")})
 			}
 		}
-	} else {
-		vs = append(vs, Violation{Sig: prop + ":workload-did-not-finish", Msg: "no final qstats entry"})
+	} else if planHasFinalQstats(ops, parIdx) {
+		// only where the plan asks for the final table read (a shrunk plan may have lost it)
+		vs = append(vs, Violation{Sig: prop + ":workload-did-not-finish" + allSlotsStalled(res.Plan), Msg: "no final qstats entry"})
 	}
 	return dedupV(vs)
 }
@@ -443,6 +444,38 @@ func init() {
 		},
 		Components: stdComponents,
 	})
+}
+
+func planHasFinalQstats(ops []plan.Op, parIdx int) bool {
+	for oi := range ops {
+		if ops[oi].Kind == "qstats" && parIdx >= 0 && oi > parIdx {
+			return true
+		}
+	}
+	return false
+}
+
+// allSlotsStalled marks histories in which at least MAX_RUNNING_QUERIES websocket clients stop reading: by the recorded
+// finding each of their queries keeps its admission slot, so every slot can be held for good and whatever waits
+// for admission (or for a lock the blocked sender holds) waits with it. Histories with fewer stalled clients than
+// slots keep the unsuffixed signatures.
+func allSlotsStalled(p *plan.Plan) string {
+	n := 0
+	for _, inc := range p.Incs {
+		for _, op := range inc.Ops {
+			for _, cl := range op.Par {
+				for _, o := range cl {
+					if o.Kind == "ws_query" && paramInt(o.Args["read"], -1) >= 0 {
+						n++
+					}
+				}
+			}
+		}
+	}
+	if p.Knobs.MaxRunning > 0 && n >= p.Knobs.MaxRunning {
+		return ":all-slots-held-by-stalled-websocket-clients"
+	}
+	return ""
 }
 
 // stalledWS marks histories in which a websocket client stopped reading (so that the class "left behind after a
